@@ -322,6 +322,7 @@ def _build_registry():
           "pdu:" + {"Rate12Data": "r12", "Rate34Data": "r34", "Rate1Data": "r1"}[nm], "int:0:5")
     E("Burst()", lambda: L("etsi.layer2.burst:Burst")())
     E("Burst.from_bytes", lambda d, v: L("etsi.layer2.burst:Burst").from_bytes(d, L("etsi.layer2.elements.burst_types:BurstTypes").Vocoder if v else L("etsi.layer2.elements.burst_types:BurstTypes").DataAndControl), "burst", "bool")
+    E("Burst.from_bits", lambda b, v: L("etsi.layer2.burst:Burst").from_bits(b, L("etsi.layer2.elements.burst_types:BurstTypes").Vocoder if v else L("etsi.layer2.elements.burst_types:BurstTypes").DataAndControl), "burstbits", "bool")
     E("Burst.from_hytera_ipsc", lambda d: L("etsi.layer2.burst:Burst").from_hytera_ipsc(d), "vec:72")
     E("HyteraIPSC.from_ipsc_bytes", lambda d: L("hytera.hytera_ipsc:HyteraIPSC").from_ipsc_bytes(d), "vec:72")
     E("CSBK(default broadcast_params)", lambda a: L("etsi.layer2.pdu.csbk:CSBK")(csbko=L("etsi.layer2.elements.csbk_opcodes:CsbkOpcodes").BSOutboundActivation, bs_address=a), "int:0:16777215")
@@ -574,9 +575,27 @@ class ArgGen:
             return {"ba": self.flip(self.pdu(rest), r.choice([0, 0, 0, 1, 2]))}
         if kind == "burst":
             return {"b": self.flip_hex(self.burst(), r.choice([0, 0, 0, 1, 3]))}
+        if kind == "burstbits":
+            from bitarray import bitarray as _ba
+
+            b = _ba()
+            b.frombytes(bytes.fromhex(self.flip_hex(self.burst(), r.choice([0, 0, 1, 1, 2]))))
+            return {"ba": b.to01()}
         if kind == "vec":
             c = self.by_len.get(int(rest)) or self.vec
             return {"b": self.flip_hex(r.choice(c), r.choice([0, 0, 1, 2]))}
+        if kind == "vecp" and rest == "3242" and r.random() < 0.5:
+            # byte-level HSTRP grammar (the C17 peer encoder): option lists of 1-5 options, exact repeats included, optional payload
+            from checks import c17
+
+            pool = [(3, r.getrandbits(32).to_bytes(4, "big")), (3, b"\x00\x01\x86\x9f"), (4, b"\x01"), (4, b"\x02"), (1, b""), (5, b"\x07"), (6, b"\x01"), (7, b"\x00")]
+            opts = [r.choice(pool) for _ in range(r.choice([1, 2, 3, 4, 5]))]
+            if r.random() < 0.4 and len(opts) >= 2:
+                opts.insert(r.randrange(len(opts) + 1), r.choice(opts))  # an exactly repeated option
+            ob = b"".join(bytes([c | (0x80 if i < len(opts) - 1 else 0), len(d)]) + d for i, (c, d) in enumerate(opts))
+            typ = r.choice([0x20, 0x20, 0x21, 0x24, 0x28, 0x30])
+            payload = r.choice([b"", c17.rrs_hdap(r.choice([1, 2, 3]), r.getrandbits(24), r.random() < 0.3), bytes.fromhex(r.choice(c17.HDAP_SAMPLES))])
+            return {"b": self.flip_hex(c17.hstrp(typ, r.choice([0, 1, 0xFFFF, r.getrandbits(16)]), ob, payload, r.choice([0, 0, 1])).hex(), r.choice([0, 0, 0, 1]))}
         if kind == "vecp":
             return {"b": self.vecp(rest.split("|"))}
         if kind == "vecm":
@@ -703,6 +722,84 @@ def run_cotenant(ops):
     return len(ops or [])
 
 
+# ------------------------------------------------------------------ a genuinely fresh interpreter under another PYTHONHASHSEED
+
+SERVER_CODE = r"""
+import os, pickle, struct, sys
+sys.path.insert(0, os.environ["VERIF_DIR"])
+from dsim import core
+core.use_repo()
+from checks import c19
+c19.CHECKS["C19"].preload()
+inp, out = sys.stdin.buffer, sys.stdout.buffer
+def rd(f, n):
+    b = b""
+    while len(b) < n:
+        c = f.read(n - len(b))
+        if not c:
+            os._exit(0)
+        b += c
+    return b
+while True:
+    n = struct.unpack("<I", rd(inp, 4))[0]
+    req = pickle.loads(rd(inp, n))
+    r, w = os.pipe()
+    pid = os.fork()
+    if pid == 0:
+        os.close(r)
+        try:
+            res = c19._alone(req)
+        except BaseException as e:
+            res = ["harness-exception", type(e).__name__]
+        data = pickle.dumps(res)
+        os.write(w, struct.pack("<I", len(data)) + data)
+        os._exit(0)
+    os.close(w)
+    f = os.fdopen(r, "rb")
+    hdr = f.read(4)
+    data = f.read(struct.unpack("<I", hdr)[0]) if len(hdr) == 4 else pickle.dumps(["crash"])
+    f.close()
+    os.waitpid(pid, 0)
+    out.write(struct.pack("<I", len(data)) + data)
+    out.flush()
+"""
+
+
+class FreshServer:
+    """python -c interpreter started with another PYTHONHASHSEED; it imports the library and evaluates each request ALONE in a child it forks"""
+
+    def __init__(self, hashseed="4242"):
+        import subprocess
+        import sys
+
+        env = dict(os.environ, PYTHONHASHSEED=hashseed, VERIF_DIR=os.path.dirname(os.path.dirname(os.path.abspath(__file__))), PYTHONDONTWRITEBYTECODE="1")
+        self.p = subprocess.Popen([sys.executable, "-c", SERVER_CODE], env=env, stdin=subprocess.PIPE, stdout=subprocess.PIPE, stderr=subprocess.DEVNULL)
+
+    def call(self, name, args):
+        import pickle
+        import struct
+
+        data = pickle.dumps((name, args))
+        self.p.stdin.write(struct.pack("<I", len(data)) + data)
+        self.p.stdin.flush()
+        hdr = self.p.stdout.read(4)
+        if len(hdr) < 4:
+            return ["server-gone"]
+        return pickle.loads(self.p.stdout.read(struct.unpack("<I", hdr)[0]))
+
+
+_server = {}
+
+
+def fresh_server():
+    """one server per (worker / driver) process, started lazily by that process, inherited by the run children it forks"""
+    pid = os.getpid()
+    if _server.get("owner") is None:
+        _server["owner"] = pid
+        _server["srv"] = FreshServer()
+    return _server["srv"]
+
+
 # ------------------------------------------------------------------ the check
 
 
@@ -755,6 +852,9 @@ class C19(Check):
                 L(p)
             except Exception:
                 pass
+
+    def worker_init(self):
+        fresh_server()
 
     def budget(self, tier):
         return 200.0 if tier == "quick" else 1800.0
@@ -810,7 +910,8 @@ class C19(Check):
         log = core.EventLog()
         # phase 1 (this process is still pristine): every distinct call evaluated alone in its own pristine child
         alone = {}
-        for op in case["ops"]:
+        srv = _server.get("srv")
+        for oi, op in enumerate(case["ops"]):
             key = core.dumps([op["entry"], op["args"]])
             if key not in alone:
                 if op["entry"] not in ENTRIES:
@@ -822,6 +923,16 @@ class C19(Check):
                     alone[key] = ["timeout"]
                 except pristine.ChildCrash:
                     alone[key] = ["crash"]
+                if srv is not None and alone[key] not in (["timeout"], ["crash"]) and core.derive("fresh", key) % 5 < 3:  # seeded 60 % sample
+                    # the same call, alone, in a genuinely fresh interpreter started with another PYTHONHASHSEED
+                    other = srv.call(op["entry"], op["args"])
+                    res.probe("fresh_interpreter_other_hashseed_evaluations")
+                    if other and other[0] in ("server-gone", "crash", "harness-exception"):
+                        res.probe("fresh_interpreter_" + other[0])
+                    elif other != alone[key]:
+                        res.violate("C19.result-depends-on-hash-seed", op["entry"], f"{op['entry']}({core.dumps(op['args'])[:160]}) evaluated alone gives {core.dumps(alone[key])[:200]} "
+                                    f"in this interpreter (PYTHONHASHSEED={os.environ.get('PYTHONHASHSEED')}) and {core.dumps(other)[:200]} in a fresh interpreter with PYTHONHASHSEED=4242", at=oi)
+                        res["viol"][-1]["case"] = {"property": "C19", "knobs": case.get("knobs", {}), "ops": [op], "arm": case.get("arm"), "run": case.get("run")}
         # phase 2: the history, in this one process, under the HISTORY clock/entropy
         seams = Seams(2_240_000_000.0, 0xB0B)  # 2040-12
         prev_entries = []
